@@ -96,6 +96,13 @@ def run(tier, v):
                            "packets": max(e["idx"] for e in o["events"])})
             f.write(json.dumps({"id": o["id"], "conns": s["conns"], "events": o["events"]}) + "\n")
     r2 = vlib.tlc("TV_C11", pid=PID, workers=8, env={"TRACE": trace}, timeout=1800, heap="10g")
+
+    if tier == "thorough":
+        def mut(rows):
+            r_ = json.loads(json.dumps(rows[0]))
+            r_["events"][-1]["retained"] = r_["events"][-1]["retained"] + 1000000000
+            return rows[:5] + [r_], "the retained bytes of one recorded event are raised beyond the bound"
+        v.binding.append(vlib.binding_demo("TV_C11", trace, mut, PID, workers=4, timeout=900, heap="4g"))
     for b in r2.lines.get("BAD", []):
         s = scen[b["id"]]
         dev = None
